@@ -52,7 +52,9 @@ def _sim_spec(draw, tier):
     ncyc = draw(st.integers(4, 40 if tier == "quick" else 100)) if n <= 10 else draw(st.integers(8, 24))
     cycles = draw(st.lists(st.tuples(mask, mask, mask).map(list), min_size=ncyc, max_size=ncyc))
     return {"kind": "sim", "modes": modes, "order": order, "trigger": draw(st.sampled_from(MODES)),
-            "cycles": cycles}
+            "cycles": cycles,
+            # cascaded monitors: the monitor's own outgoing source is one event of a parent monitor
+            "cascade": draw(st.sampled_from([None, None, None, 0, 1, 3]))}
 
 
 def strategy(tier):
@@ -169,7 +171,23 @@ def _check_sim(spec, stats):
     for m in modes:
         stats.label("mode:" + m)
     mon = event.Monitor(emap, trigger=spec["trigger"])
-    top = sim.wrap(mon)
+    parent = None
+    if spec.get("cascade") is not None:
+        stats.label("cascaded")
+        pmap = event.EventMap()
+        others = [event.Source(trigger="level", path=(f"p{i}",)) for i in range(spec["cascade"])]
+        for o in others[:len(others) // 2]:
+            pmap.add(o)
+        pmap.add(mon.src)
+        for o in others[len(others) // 2:]:
+            pmap.add(o)
+        parent = event.Monitor(pmap, trigger="level")
+        pbit = len(others) // 2
+        if pmap.index(mon.src) != pbit:
+            raise Violation("C13/map/index", f"parent map: index(child.src) = {pmap.index(mon.src)}, added {pbit}-th")
+        ppend = [0]
+        pprev = [0]
+    top = sim.wrap(mon, parent) if parent is not None else sim.wrap(mon)
     i_cat = [s.i for s in srcs]
     trg_cat = Cat(*[s.trg for s in srcs])
     prev = [0] * n
@@ -202,6 +220,20 @@ def _check_sim(spec, stats):
             got_i = ctx.get(mon.src.i)
             if got_i != int(bool(en & pending[0])):
                 raise Violation("C13/src.i", f"{where}: src.i={got_i}, expected {int(bool(en & pending[0]))}")
+            if parent is not None:
+                # the parent sees the child's line through a source of the child's trigger mode
+                ctx.set(parent.enable, 1 << pbit)
+                mode = spec["trigger"]
+                ptrg = got_i if mode == "level" else int(got_i and not pprev[0]) if mode == "rise" else int(pprev[0] and not got_i)
+                if ctx.get(mon.src.trg) != ptrg:
+                    raise Violation("C13/cascade/trg", f"{where}: child.src.trg={ctx.get(mon.src.trg)}, expected {ptrg} ({mode})")
+                if ctx.get(parent.pending) != ppend[0]:
+                    raise Violation("C13/cascade/pending", f"{where}: parent pending={ctx.get(parent.pending):#b}, expected {ppend[0]:#b}")
+                if ctx.get(parent.src.i) != int(bool(ppend[0])):
+                    raise Violation("C13/cascade/src.i", f"{where}: parent src.i={ctx.get(parent.src.i)}, expected {int(bool(ppend[0]))}")
+                if ptrg:
+                    ppend[0] |= 1 << pbit
+                pprev[0] = got_i
             if pending[0] and en and (en & full) != full and en & pending[0] != pending[0]:
                 stats.label("enable_partial")
             if en and pending[0] and not (en & pending[0]):
